@@ -37,17 +37,18 @@ const (
 var c16TimingNames = []string{"before", "deadline-1ns", "at-deadline", "deadline+1ns", "after", "on-cancel", "never"}
 
 type c16Clock struct {
-	r        *simcore.Run
-	name     string
-	timing   c16Timing
-	fail     bool
-	delay    time.Duration // for before/after
-	off      time.Duration
-	release  time.Time // virtual instant at which MeasureClockOffset returned
-	called   int
-	letGo    *bool
-	deadline time.Duration
-	zeroTS   bool // succeeds with the zero time as timestamp
+	r          *simcore.Run
+	name       string
+	timing     c16Timing
+	fail       bool
+	delay      time.Duration // for before/after
+	off        time.Duration
+	release    time.Time // virtual instant at which MeasureClockOffset returned
+	called     int
+	letGo      *bool
+	deadline   time.Duration
+	zeroTS     bool // succeeds with the zero time as timestamp
+	ownTimeout bool // fails with an error that wraps context.DeadlineExceeded
 }
 
 type c16Outcome struct {
@@ -76,6 +77,11 @@ func (c *c16Clock) MeasureClockOffset(ctx context.Context) (time.Time, time.Dura
 	c.release = time.Now()
 	c.r.Log("clk %s returns at %d", c.name, c.release.Sub(c.r.Start()))
 	if c.fail {
+		if c.ownTimeout {
+			// the clock gave up on a time limit of its own (a key exchange, a lookup): that is
+			// this clock's failure, not the end of the round
+			return time.Time{}, 0, fmt.Errorf("scripted clock: %w", context.DeadlineExceeded)
+		}
 		return time.Time{}, 0, errScripted
 	}
 	if c.zeroTS {
@@ -94,6 +100,10 @@ func c16World(t *testing.T, r *simcore.Run) any {
 	// the tape's first choices being driven from the index in the Spec wrapper (see
 	// c16Enum); otherwise sampled.
 	n := tp.Intn(9, "nclocks")
+	if tp.Bool(1, 8, "many-clocks") {
+		n = 9 + tp.Intn(8, "nclocks-many") // more sources than any fixed pool of helpers
+		r.Probe("more-than-eight-clocks")
+	}
 	dl := []time.Duration{0, time.Nanosecond, time.Millisecond, 500 * time.Millisecond, 3 * time.Second}[tp.Intn(5, "deadline")]
 	letGo := false
 	clocks := make([]*c16Clock, n)
@@ -103,6 +113,7 @@ func c16World(t *testing.T, r *simcore.Run) any {
 		c.timing = c16Timing(tp.Intn(int(c16NumTimings), "timing"))
 		c.fail = tp.Bool(1, 3, "fail")
 		c.zeroTS = tp.Bool(1, 5, "zero-timestamp")
+		c.ownTimeout = tp.Bool(1, 3, "own-timeout")
 		c.off = time.Duration(1000 + i) // unique, recognisable
 		switch c.timing {
 		case c16Before:
@@ -309,6 +320,14 @@ func c16CheckOutcome(r *simcore.Run, tag string, o *c16Outcome, clocks []*c16Clo
 		r.Probe("returned-at-deadline")
 	} else {
 		r.Probe("returned-early")
+		// before the deadline a collection ends only because every clock has answered (with a
+		// result or an error): anything else gives up results that would have arrived in time
+		for _, c := range clocks {
+			if took < dl && (c.called == 0 || c.release.IsZero() || c.release.After(o.ret)) {
+				r.Fail("C16", tag+"/early-return", "collection returned after %v, before its deadline %v, although clock %s had not answered yet", took, dl, c.name)
+				return
+			}
+		}
 	}
 	// classify clocks by their release instant relative to the return instant
 	must := map[time.Duration]bool{}
